@@ -61,6 +61,8 @@ class PoolCtx:
         self.live = set()           # task ids whose worker has begun and not finished
         self.maxlive = 0            # maximum of len(live) since the last observation
         self.simple_holder = None
+        self.closing = False        # generator bookkeeping: gather_and_close was requested
+        self.unlock_hooks = False   # generator bookkeeping: some user code of this pool calls unlock()
 
     def note_live(self):
         self.maxlive = max(self.maxlive, len(self.live))
@@ -202,7 +204,16 @@ class ImplWorld:
             p = ctx.pool
             cur, name = W.tid_of_current(ctx)
             tag = "" if cur == tid else "?"          # the id passed must be the id in the task's name (C11)
-            ctx.ev.append(f"{pre}c{tag}{tid}:{p.num_running}/{p.num_cancelled}/{p.num_ended}")
+            try:                                     # how does `cancel(id)` classify the task right now? (C03)
+                p.cancel(tid)
+                reg = "R"
+            except X.AlreadyCancelled:
+                reg = "C"
+            except X.AlreadyEnded:
+                reg = "E"
+            except X.InvalidTaskID:
+                reg = "N"
+            ctx.ev.append(f"{pre}c{tag}{tid}:{p.num_running}/{p.num_cancelled}/{p.num_ended}/{reg}")
             W.run_hooks(ctx, hooks, holder)
 
         if spec == "p":
